@@ -63,6 +63,22 @@ def gen_orders(rng):
     return {"kind": "orders", "n": n, "sched": sched}
 
 
+def gen_many(rng):
+    """9-12 clients, ALL of them queued at the server at once (every request sent, then every request received in a dictated
+    order), then rounds in which every client is offered its two labels and the server its three"""
+    n = rng.randint(9, 12)
+    order = list(range(1, n + 1)); rng.shuffle(order)
+    sched = [[c, []] for c in order]
+    for _ in range(n):
+        sched += [[0, []], [0, [rng.getrandbits(30)]], [0, []]]
+    for _ in range(n):
+        cs = list(range(1, n + 1)); rng.shuffle(cs)
+        for c in cs:
+            sched += [[c, []], [c, []]]
+        sched += [[0, []], [0, [0]], [0, []]]
+    return {"kind": "many", "n": n, "sched": sched}
+
+
 def corpus():
     out = []
     d = os.path.join(vlib.VERIF, "corpus", "C15")
@@ -146,6 +162,7 @@ def analyse(case, res):
     srv_locals = {}
     arrived, granted = [], []
     nontriv = False
+    model_ok = True
     prev_state = res["init"]
     last_o = None
     for i, ob in enumerate(res["steps"]):
@@ -172,7 +189,7 @@ def analyse(case, res):
                         written.add(el["name"])
                     elif el["name"] not in written:
                         exp = srv_locals.get(el["name"], {"t": []} if el["name"] == "AServer.q" else None)
-                        if el["val"] != exp:
+                        if el["val"] != exp and not any("tracked value" in b for b in breaks):
                             breaks.append("step %d: server read %s = %s but the tracked value is %s" % (i, el["name"], json.dumps(el["val"]), json.dumps(exp)))
         pre = prev_state
         pick = None
@@ -222,16 +239,26 @@ def analyse(case, res):
             # non-triviality
             if any(c["ceiling"] >= 2 for c in ob["choices"]) and proc == "server":
                 nontriv = True
-            o = project(n, post, srv_locals, pcs, arrived, granted)
-            if len(o["q"]) >= 2:
+            if len(arrived) - len(granted) >= 2:
                 nontriv = True
-            same = out != "commit" and post == pre and coq_steps and last_o == o
-            coq_steps.append("((%d,%s),(%d,%s))" % (p, "None" if pick is None else "Some " + coq_msg(pick), OUT[out],
-                                                     "None" if same else "Some " + coq_obs(o)))
-            last_o = o
-        except Unencodable as e:
-            breaks.append("step %d: observation outside the typed model's universe: %s" % (i, e))
-            break
+            if model_ok:
+                # projection for the model; a label or a value the typed model does not know breaks the TIE (reported once),
+                # the implementation-side oracle above keeps judging the rest of the walk on hasLock / network alone
+                try:
+                    o = project(n, post, srv_locals, pcs, arrived, granted)
+                    if len(o["q"]) >= 2:
+                        nontriv = True
+                    same = out != "commit" and post == pre and coq_steps and last_o == o
+                    coq_steps.append("((%d,%s),(%d,%s))" % (p, "None" if pick is None else "Some " + coq_msg(pick), OUT[out],
+                                                             "None" if same else "Some " + coq_obs(o)))
+                    last_o = o
+                except (Unencodable, KeyError) as e:
+                    model_ok = False
+                    breaks.append("step %d: observation outside the typed model's universe (label or value unknown to coq/C15/Model.v): %r" % (i, e))
+        except (Unencodable, KeyError, TypeError) as e:
+            if model_ok:
+                breaks.append("step %d: observation the oracle cannot read: %r" % (i, e))
+            model_ok = False
         prev_state = ob["state"]
         if out.startswith("error"):
             break
@@ -275,6 +302,8 @@ def run(ctx):
         for i in range(nwalks):
             r = rng.random()
             cases.append(gen_auto(rng) if r < 0.6 else gen_orders(rng) if r < 0.85 else gen_blind(rng))
+        for i in range(3 if ctx.tier == "quick" else 150):
+            cases.append(gen_many(rng))
     for i, c in enumerate(cases):
         c["id"] = i
     rc, res, err = vlib.run_jsonl("c15", [{k: v for k, v in c.items() if k in ("id", "n", "sched", "auto")} for c in cases], timeout=900)
@@ -306,7 +335,7 @@ def run(ctx):
     ctx.extra["steps_total"] = steps_total
     ctx.extra["step_outcomes"] = outcomes
     ctx.extra["committed_labels"] = labels
-    ctx.extra["clients_distribution"] = {str(n): sum(1 for c in cases if c["n"] == n) for n in range(1, 6)}
+    ctx.extra["clients_distribution"] = {str(n): sum(1 for c in cases if c["n"] == n) for n in range(1, 13)}
     ctx.samples = [{"n": e["n"], "schedule": e["sched"][:12],
                     "go_steps": [(o["proc"], o["label"], o["outcome"], o["picks"]) for o in r["steps"][:12]]}
                    for (_, e, _, r) in walks[:4]]
